@@ -97,51 +97,19 @@ theorem agreement_below_third (c : Cfg) (hf : c.FaultyBelowThird) : agreement_st
 
 /-! #### non-vacuity: a schedule on which two honest nodes do decide (cfg4, validator 3 faulty) -/
 
-private def pv (p : Val) (b : Option Block) : Vote := ⟨p, 1, 0, .prevote, b⟩
-private def pc (p : Val) (b : Option Block) : Vote := ⟨p, 1, 0, .precommit, b⟩
-
-/-- honest `p` prevotes block 10 while unlocked -/
-private theorem stepPrevote {c : Cfg} {σ : AState} (h : AReach c σ) (p : Val) (w : Option Block)
-    (hp : c.honest p) (h1 : (σ.nodes p).pvDone = false)
-    (h2 : ∀ v, (σ.nodes p).lockedBlock = some v → w = some v) :
-    AReach c { nodes := upd σ.nodes p { (σ.nodes p) with pvDone := true },
-               log := σ.log ++ [⟨p, (σ.nodes p).height, (σ.nodes p).round, .prevote, w⟩] } :=
-  h.step (AStep.act σ p _ _ hp (AAct.prevote _ w h1 h2))
-
-private theorem stepPrecommit {c : Cfg} {σ : AState} (h : AReach c σ) (p : Val) (v : Block)
-    (hp : c.honest p) (h1 : (σ.nodes p).pcDone = false)
-    (h2 : polka c σ.log (σ.nodes p).height (σ.nodes p).round (some v)) :
-    AReach c { nodes := upd σ.nodes p { (σ.nodes p) with
-                 pcDone := true, lockedRound := (σ.nodes p).round, lockedBlock := some v },
-               log := σ.log ++ [⟨p, (σ.nodes p).height, (σ.nodes p).round, .precommit, some v⟩] } :=
-  h.step (AStep.act σ p _ _ hp (AAct.precommitBlock _ v h1 h2))
-
-private theorem stepDecide {c : Cfg} {σ : AState} (h : AReach c σ) (p : Val) (v : Block) (r : Nat)
-    (hp : c.honest p) (h2 : commitQ c σ.log (σ.nodes p).height r v) :
-    AReach c { nodes := upd σ.nodes p
-                 { height := (σ.nodes p).height + 1, round := 0, pvDone := false, pcDone := false,
-                   lockedRound := -1, lockedBlock := none,
-                   decided := ((σ.nodes p).height, v) :: (σ.nodes p).decided },
-               log := σ.log ++ [] } :=
-  h.step (AStep.act σ p _ _ hp (AAct.decide _ v r h2))
-
-private theorem stepByz {c : Cfg} {σ : AState} (h : AReach c σ) (v : Vote) (hb : ¬ c.honest v.sender) :
-    AReach c { σ with log := σ.log ++ [v] } :=
-  h.step (AStep.byz σ v hb)
-
 /-- In `cfg4` the honest validators 0, 1, 2 prevote and precommit block 10 at (1, 0) and
 validators 0 and 1 decide it: decisions are reachable, so `agreement` is not vacuous. -/
 theorem decisions_reachable :
     ∃ σ, AReach cfg4 σ ∧ (1, 10) ∈ (σ.nodes 0).decided ∧ (1, 10) ∈ (σ.nodes 1).decided := by
   have s0 := AReach.init (c := cfg4)
-  have s1 := stepPrevote s0 0 (some 10) (by decide) rfl (by intro v h; cases h)
-  have s2 := stepPrevote s1 1 (some 10) (by decide) rfl (by intro v h; cases h)
-  have s3 := stepPrevote s2 2 (some 10) (by decide) rfl (by intro v h; cases h)
-  have s4 := stepPrecommit s3 0 10 (by decide) rfl (by decide)
-  have s5 := stepPrecommit s4 1 10 (by decide) rfl (by decide)
-  have s6 := stepPrecommit s5 2 10 (by decide) rfl (by decide)
-  have s7 := stepDecide s6 0 10 0 (by decide) (by decide)
-  have s8 := stepDecide s7 1 10 0 (by decide) (by decide)
+  have s1 := AReach.prevote s0 0 (some 10) (by decide) rfl (by intro v h; cases h)
+  have s2 := AReach.prevote s1 1 (some 10) (by decide) rfl (by intro v h; cases h)
+  have s3 := AReach.prevote s2 2 (some 10) (by decide) rfl (by intro v h; cases h)
+  have s4 := AReach.precommitBlock s3 0 10 (by decide) rfl (by decide)
+  have s5 := AReach.precommitBlock s4 1 10 (by decide) rfl (by decide)
+  have s6 := AReach.precommitBlock s5 2 10 (by decide) rfl (by decide)
+  have s7 := AReach.decide s6 0 10 0 (by decide) (by decide)
+  have s8 := AReach.decide s7 1 10 0 (by decide) (by decide)
   exact ⟨_, s8, by decide, by decide⟩
 
 /-! #### the fault bound is needed -/
@@ -156,16 +124,16 @@ honest validator 1 for 20, and they decide differently at height 1. -/
 theorem agreement_needs_fault_bound : ¬ agreement_statement cfgBad := by
   intro hA
   have s0 := AReach.init (c := cfgBad)
-  have s1 := stepByz s0 (pv 2 (some 10)) (by decide)
-  have s2 := stepByz s1 (pv 2 (some 20)) (by decide)
-  have s3 := stepPrevote s2 0 (some 10) (by decide) rfl (by intro v h; cases h)
-  have s4 := stepPrevote s3 1 (some 20) (by decide) rfl (by intro v h; cases h)
-  have s5 := stepPrecommit s4 0 10 (by decide) rfl (by decide)
-  have s6 := stepPrecommit s5 1 20 (by decide) rfl (by decide)
-  have s7 := stepByz s6 (pc 2 (some 10)) (by decide)
-  have s8 := stepByz s7 (pc 2 (some 20)) (by decide)
-  have s9 := stepDecide s8 0 10 0 (by decide) (by decide)
-  have s10 := stepDecide s9 1 20 0 (by decide) (by decide)
+  have s1 := AReach.byz s0 ⟨2, 1, 0, .prevote, some 10⟩ (by decide)
+  have s2 := AReach.byz s1 ⟨2, 1, 0, .prevote, some 20⟩ (by decide)
+  have s3 := AReach.prevote s2 0 (some 10) (by decide) rfl (by intro v h; cases h)
+  have s4 := AReach.prevote s3 1 (some 20) (by decide) rfl (by intro v h; cases h)
+  have s5 := AReach.precommitBlock s4 0 10 (by decide) rfl (by decide)
+  have s6 := AReach.precommitBlock s5 1 20 (by decide) rfl (by decide)
+  have s7 := AReach.byz s6 ⟨2, 1, 0, .precommit, some 10⟩ (by decide)
+  have s8 := AReach.byz s7 ⟨2, 1, 0, .precommit, some 20⟩ (by decide)
+  have s9 := AReach.decide s8 0 10 0 (by decide) (by decide)
+  have s10 := AReach.decide s9 1 20 0 (by decide) (by decide)
   have := hA _ s10 0 1 (by decide) (by decide) 1 10 20 (by decide) (by decide)
   exact absurd this (by decide)
 
